@@ -71,6 +71,9 @@ func genObj(r *wire.Rng, names []string) Obj {
 	if len(o.Outs) > 0 && r.Chance(10, 100) {
 		o.Outs = append(o.Outs, o.Outs[0]) // duplicate key inside one input (GroupUnique)
 	}
+	if r.Chance(6, 100) {
+		o.Labels, o.LabelsNil = nil, true // a nil label map (FilterSelects(nil) matches everything)
+	}
 	return o
 }
 
